@@ -210,7 +210,7 @@ def ob_points(tier):
                     if r != z3.unsat:
                         # native: compare with 3 * g^bitrev(i)
                         dom = replay([{"fn": "stark_domains_new", "log_trace_domain_size": hx(max(lg - 1, 0)), "log_n_cosets": hx(1 if lg >= 1 else 0)}], LAY)[0]["ok"]
-                        qv = [rng("C10S.p").randrange(2**lg) for _ in range(nq)]
+                        qv = [max(1, 2**lg - 1 - jj) for jj in range(nq)]
                         req = {"fn": "queries_to_points", "queries": [hx(x) for x in qv], "stark_domains": dom}
                         ans = replay([req], LAY)[0]
                         g = int(dom["eval_generator"], 16)
